@@ -1,0 +1,41 @@
+// Copyright 2021 The Grin Developers
+//
+// Licensed under the Apache License, Version 2.0 (the "License");
+// you may not use this file except in compliance with the License.
+// You may obtain a copy of the License at
+//
+//     http://www.apache.org/licenses/LICENSE-2.0
+//
+// Unless required by applicable law or agreed to in writing, software
+// distributed under the License is distributed on an "AS IS" BASIS,
+// WITHOUT WARRANTIES OR CONDITIONS OF ANY KIND, either express or implied.
+// See the License for the specific language governing permissions and
+// limitations under the License.
+
+//! Verification hooks, only compiled with the `verif_hooks` feature.
+//! Re-exports internal modules so an external harness can drive them
+//! directly, and holds the callback `wallet_lock!` invokes immediately
+//! before it acquires the wallet mutex.
+
+pub use crate::internal::{keys, scan, selection, tx, updater};
+
+use std::sync::{Arc, RwLock};
+
+type LockHook = Arc<dyn Fn(&'static str, u32) + Send + Sync>;
+
+lazy_static! {
+	static ref BEFORE_WALLET_LOCK: RwLock<Option<LockHook>> = RwLock::new(None);
+}
+
+/// Install (or remove) the callback invoked before every wallet_lock!
+pub fn set_before_wallet_lock(hook: Option<LockHook>) {
+	*BEFORE_WALLET_LOCK.write().unwrap() = hook;
+}
+
+/// Called by wallet_lock! before taking the wallet mutex
+pub fn before_wallet_lock(file: &'static str, line: u32) {
+	let hook = BEFORE_WALLET_LOCK.read().unwrap().clone();
+	if let Some(h) = hook {
+		h(file, line);
+	}
+}
